@@ -280,3 +280,164 @@ Theorem command_args_implicit :
 Proof. exact ConstSites.command_args_implicit. Qed.
 Print Assumptions command_args_implicit.
 
+
+(* ConstTwin.v *)
+From Pory Require ConstTwin.
+Theorem command_arguments_twin_rel :
+  forall (switches : list (text * text)) (env_errors : bool) (parse_format : toks -> res (token * text * text * toks))
+    (c c' : list (text * text)) (f : nat) (script : text) (name lp : token) (a a' : CmdArgs.arglist) (rp : token) (rest : list token),
+  ttype lp = LPAREN ->
+  ttype rp = RPAREN ->
+  CmdArgs.wf_args switches env_errors parse_format a ->
+  CmdArgs.balanced (CmdArgs.flat a) ->
+  length (CmdArgs.arg_tokens a) < f ->
+  ConstTwin.arel c c' a a' ->
+  command_stmt switches env_errors parse_format c' f script (name :: lp :: CmdArgs.arg_tokens a' ++ rp :: rest) =
+  command_stmt switches env_errors parse_format c f script (name :: lp :: CmdArgs.arg_tokens a ++ rp :: rest).
+Proof. exact ConstTwin.command_arguments_twin_rel. Qed.
+Print Assumptions command_arguments_twin_rel.
+
+Theorem command_arguments_twin_all :
+  forall (switches : list (text * text)) (env_errors : bool) (parse_format : toks -> res (token * text * text * toks)) 
+    (c : list (text * text)) (f : nat) (script : text) (name lp : token) (a : CmdArgs.arglist) (rp : token) (rest : list token),
+  ttype lp = LPAREN ->
+  ttype rp = RPAREN ->
+  CmdArgs.wf_args switches env_errors parse_format a ->
+  CmdArgs.balanced (CmdArgs.flat a) ->
+  length (CmdArgs.arg_tokens a) < f ->
+  command_stmt switches env_errors parse_format [] f script
+    (name :: lp :: CmdArgs.arg_tokens (ConstTwin.retok_args c (fun _ : token => true) a) ++ rp :: rest) =
+  command_stmt switches env_errors parse_format c f script (name :: lp :: CmdArgs.arg_tokens a ++ rp :: rest).
+Proof. exact ConstTwin.command_arguments_twin_all. Qed.
+Print Assumptions command_arguments_twin_all.
+
+Theorem command_arguments_twin_some :
+  forall (switches : list (text * text)) (env_errors : bool) (parse_format : toks -> res (token * text * text * toks)) 
+    (c : list (text * text)) (sel : token -> bool) (f : nat) (script : text) (name lp : token) (a : CmdArgs.arglist) 
+    (rp : token) (rest : list token),
+  ttype lp = LPAREN ->
+  ttype rp = RPAREN ->
+  CmdArgs.wf_args switches env_errors parse_format a ->
+  CmdArgs.balanced (CmdArgs.flat a) ->
+  length (CmdArgs.arg_tokens a) < f ->
+  (forall tk : token, sel tk = true -> creplace c (creplace c (tlit tk)) = creplace c (tlit tk)) ->
+  command_stmt switches env_errors parse_format c f script (name :: lp :: CmdArgs.arg_tokens (ConstTwin.retok_args c sel a) ++ rp :: rest) =
+  command_stmt switches env_errors parse_format c f script (name :: lp :: CmdArgs.arg_tokens a ++ rp :: rest).
+Proof. exact ConstTwin.command_arguments_twin_some. Qed.
+Print Assumptions command_arguments_twin_some.
+
+Theorem command_arguments_twin_const :
+  forall (switches : list (text * text)) (env_errors : bool) (parse_format : toks -> res (token * text * text * toks)) 
+    (c : list (text * text)) (x v : text) (sel : token -> bool) (f : nat) (script : text) (name lp : token) (a : CmdArgs.arglist) 
+    (rp : token) (rest : list token),
+  assoc c x = Some v ->
+  assoc c v = None ->
+  (forall tk : token, sel tk = true -> tlit tk = x) ->
+  ttype lp = LPAREN ->
+  ttype rp = RPAREN ->
+  CmdArgs.wf_args switches env_errors parse_format a ->
+  CmdArgs.balanced (CmdArgs.flat a) ->
+  length (CmdArgs.arg_tokens a) < f ->
+  command_stmt switches env_errors parse_format c f script (name :: lp :: CmdArgs.arg_tokens (ConstTwin.retok_args c sel a) ++ rp :: rest) =
+  command_stmt switches env_errors parse_format c f script (name :: lp :: CmdArgs.arg_tokens a ++ rp :: rest) /\
+  (forall tk : token, sel tk = true -> ConstTwin.retok c tk = set_lit tk v).
+Proof. exact ConstTwin.command_arguments_twin_const. Qed.
+Print Assumptions command_arguments_twin_const.
+
+Theorem command_stmt_twin_stream_rel :
+  forall (switches : list (text * text)) (env_errors : bool) (parse_format : toks -> res (token * text * text * toks)),
+  (forall (ts : toks) (tk : token) (v sty : text) (ts' : toks),
+   parse_format ts = Ok (tk, v, sty, ts') -> forall a : toks, advs a ts -> advs a ts') ->
+  forall (c c' : list (text * text)) (sel : token -> bool) (f : nat) (script : text) (name lp : token) (r : list token) 
+    (cm : cmd) (imp : impdata) (ts' : toks),
+  eof_ended (name :: lp :: r) ->
+  Forall CmdConverse.no_subparser_tok (name :: lp :: r) ->
+  ttype lp = LPAREN ->
+  (forall tk : token, sel tk = true -> creplace c' (creplace c (tlit tk)) = creplace c (tlit tk)) ->
+  (forall tk : token, sel tk = false -> creplace c' (tlit tk) = creplace c (tlit tk)) ->
+  command_stmt switches env_errors parse_format c f script (name :: lp :: r) = Ok (cm, imp, ts') ->
+  forall f' : nat,
+  length r < f' ->
+  command_stmt switches env_errors parse_format c' f' script (name :: lp :: ConstTwin.retok_stream c sel 0 r) = Ok (cm, imp, ts').
+Proof. exact ConstTwin.command_stmt_twin_stream_rel. Qed.
+Print Assumptions command_stmt_twin_stream_rel.
+
+Theorem command_stmt_twin_stream_all :
+  forall (switches : list (text * text)) (env_errors : bool) (parse_format : toks -> res (token * text * text * toks)),
+  (forall (ts : toks) (tk : token) (v sty : text) (ts' : toks),
+   parse_format ts = Ok (tk, v, sty, ts') -> forall a : toks, advs a ts -> advs a ts') ->
+  forall (c : list (text * text)) (f : nat) (script : text) (name lp : token) (r : list token) (cm : cmd) (imp : impdata) (ts' : toks),
+  eof_ended (name :: lp :: r) ->
+  Forall CmdConverse.no_subparser_tok (name :: lp :: r) ->
+  ttype lp = LPAREN ->
+  command_stmt switches env_errors parse_format c f script (name :: lp :: r) = Ok (cm, imp, ts') ->
+  forall f' : nat,
+  length r < f' ->
+  command_stmt switches env_errors parse_format [] f' script (name :: lp :: ConstTwin.retok_stream c (fun _ : token => true) 0 r) =
+  Ok (cm, imp, ts').
+Proof. exact ConstTwin.command_stmt_twin_stream_all. Qed.
+Print Assumptions command_stmt_twin_stream_all.
+
+Theorem command_stmt_twin_stream_const :
+  forall (switches : list (text * text)) (env_errors : bool) (parse_format : toks -> res (token * text * text * toks)),
+  (forall (ts : toks) (tk : token) (v sty : text) (ts' : toks),
+   parse_format ts = Ok (tk, v, sty, ts') -> forall a : toks, advs a ts -> advs a ts') ->
+  forall (c : list (text * text)) (x v : text) (sel : token -> bool) (f : nat) (script : text) (name lp : token) (r : list token) 
+    (cm : cmd) (imp : impdata) (ts' : toks),
+  assoc c x = Some v ->
+  assoc c v = None ->
+  (forall tk : token, sel tk = true -> tlit tk = x) ->
+  eof_ended (name :: lp :: r) ->
+  Forall CmdConverse.no_subparser_tok (name :: lp :: r) ->
+  ttype lp = LPAREN ->
+  command_stmt switches env_errors parse_format c f script (name :: lp :: r) = Ok (cm, imp, ts') ->
+  forall f' : nat,
+  length r < f' ->
+  command_stmt switches env_errors parse_format c f' script (name :: lp :: ConstTwin.retok_stream c sel 0 r) = Ok (cm, imp, ts').
+Proof. exact ConstTwin.command_stmt_twin_stream_const. Qed.
+Print Assumptions command_stmt_twin_stream_const.
+
+Theorem comparison_value_twin :
+  forall (c : list (text * text)) (f : nat) (ts : toks) (res0 : cmpop * text * bool * toks),
+  eof_ended ts -> cond_var_operator c f ts = Ok res0 -> cond_var_operator [] f (ConstTwin.retok_cmp c ts) = Ok res0.
+Proof. exact ConstTwin.comparison_value_twin. Qed.
+Print Assumptions comparison_value_twin.
+
+Theorem condition_operand_twin :
+  forall (autovars : list (text * autovar)) (switches : list (text * text)) (env_errors : bool)
+    (parse_format : toks -> res (token * text * text * toks)) (c : list (text * text)) (f : nat) (script : text) (ts0 : toks)
+    (res0 : leaf * impdata * toks),
+  eof_ended ts0 ->
+  peek_is_autovar autovars (if peekis NOT ts0 then adv ts0 else ts0) = false ->
+  leaf_expr autovars switches env_errors parse_format c f script ts0 = Ok res0 ->
+  leaf_expr autovars switches env_errors parse_format [] f script (ConstTwin.retok_leaf c ts0) = Ok res0.
+Proof. exact ConstTwin.condition_operand_twin. Qed.
+Print Assumptions condition_operand_twin.
+
+Theorem switch_operand_twin_var :
+  forall (autovars : list (text * autovar)) (switches : list (text * text)) (env_errors : bool)
+    (parse_format : toks -> res (token * text * text * toks)) (c : list (text * text)),
+  (forall x : text, creplace c (creplace c x) = creplace c x) ->
+  forall (f : nat) (script : text) (bs cs : list nat) (sw lp v lp2 : token) (r : list token) (res0 : list stmt * impdata * toks),
+  eof_ended (sw :: lp :: v :: lp2 :: r) ->
+  ttype v = VAR ->
+  parse_switch autovars switches env_errors parse_format c (S f) script bs cs (sw :: lp :: v :: lp2 :: r) = Ok res0 ->
+  parse_switch autovars switches env_errors parse_format c (S f) script bs cs (sw :: lp :: v :: lp2 :: ConstTwin.retok_until c (is RPAREN) r) =
+  Ok res0.
+Proof. exact ConstTwin.switch_operand_twin_var. Qed.
+Print Assumptions switch_operand_twin_var.
+
+Theorem case_value_twin :
+  forall (autovars : list (text * autovar)) (switches : list (text * text)) (env_errors : bool)
+    (parse_format : toks -> res (token * text * text * toks)) (c : list (text * text)),
+  (forall x : text, creplace c (creplace c x) = creplace c x) ->
+  forall (f : nat) (script : text) (bs cs : list nat) (brace : token) (ts : toks) (acc : list scase) (seen : list text) 
+    (hasdef : bool) (imp : impdata) (res0 : list scase * impdata * toks),
+  eof_ended ts ->
+  curis CASE ts = true ->
+  parse_cases autovars switches env_errors parse_format c (S f) script bs cs brace ts acc seen hasdef imp = Ok res0 ->
+  parse_cases autovars switches env_errors parse_format c (S f) script bs cs brace (cur ts :: ConstTwin.retok_until c (is COLON) (adv ts)) acc
+    seen hasdef imp = Ok res0.
+Proof. exact ConstTwin.case_value_twin. Qed.
+Print Assumptions case_value_twin.
+
